@@ -315,6 +315,50 @@ def prec_grammar(repo, res, backends=("C", "numba"), props_by_backend=None):
                                 res.fail(key, f"{be} formatter emits `{text.strip()}` for {P.name}({pos} = one-operand {W.name} of a {C.name}{' ' + cv if cv else ''}); read back by "
                                          f"the {be} grammar it is {got}, intended {want}: a node that prints as the bare text of its operand must bind like that operand",
                                          modname.replace(".", "/") + ".py", props=props_by_backend[be])
+        # depth 3 with parenthesised grandchildren: the induction above treats the text of a child as opaque; a handler that looks INTO that text
+        # (drops its own parentheses when the child's text already starts with "(" and ends with ")") is only seen when the child's operands are
+        # themselves parenthesised: P(x, C(a + b, c + d)) for every parent, position and binary / n-ary child
+        G = classes.get("Add") or classes.get("Sum")
+        if G is not None:
+            for P in exprs:
+                if P.kind in ("symbol", "lit_float", "lit_int", "multiindex", "assign"):
+                    continue
+                for pos in Builder(classes).positions(P, ""):
+                    for C in exprs:
+                        if C.kind not in ("bin", "nary") or not constructible(P, pos, C) or not typed(C):
+                            continue
+                        cpos = Builder(classes).positions(C, "")
+                        if not all(constructible(C, cp, G) for cp in cpos):
+                            continue
+                        key = f"{be}:{P.name}:{pos}:{C.name}(parenthesised operands)"
+                        res.ob(key)
+                        bb = Builder(classes)
+                        try:
+                            inner = bb.make(C, [bb.make(G) for _ in cpos])
+                            m_ = re.match(r"([a-z_]+?)(\d+)?$", pos)
+                            attr, idx = m_.group(1), m_.group(2)
+                            nkids = {"bin": 2, "nary": 2, "unary": 1, "cond": 3, "access": 2, "call": 2}[P.kind]
+                            order = {"bin": ["lhs", "rhs"], "unary": ["arg"], "cond": ["condition", "true", "false"]}.get(P.kind)
+                            kids = [None] * nkids
+                            if order:
+                                kids[order.index(attr)] = inner
+                            else:
+                                kids[int(idx)] = inner
+                            tree = bb.make(P, kids)
+                            want = strip_call_name(canon(bb.intended(tree, opmap)))
+                            text = render(ev, tree)
+                        except AnalysisError as e:
+                            raise AnalysisError(f"{key}: {e}") from e
+                        try:
+                            got = strip_call_name(canon(parser(text)))
+                        except ParseError as e:
+                            res.fail(key, f"{be} formatter emits `{text.strip()}` for {P.name}({pos} = {C.name} of two sums); the {be} grammar rejects it: {e}",
+                                     modname.replace(".", "/") + ".py", props=props_by_backend[be])
+                            continue
+                        if got != want:
+                            res.fail(key, f"{be} formatter emits `{text.strip()}` for {P.name}({pos} = {C.name} of two sums); read back by the {be} grammar it is {got}, "
+                                     f"intended {want}: whether an operand needs parentheses is decided by its operator, not by how its text begins and ends",
+                                     modname.replace(".", "/") + ".py", props=props_by_backend[be])
         # leaves and unary chains at top level must at least parse
         for C in exprs:
             key = f"{be}:top:{C.name}"
